@@ -53,7 +53,12 @@ RTAtoms ==
   \* PropertyOrder: shorter, equal and longer than properties, naming absent properties
   \cup {[properties |-> [a |-> IntS, b |-> [type |-> "string"]], propertyOrder |-> o] :
           o \in {<<"b">>, <<"b", "a">>, <<"a", "zz">>, <<"zz", "b", "yy">>, <<"zz">>, <<>>}}
-RTOk(s) == /\ ~({"type", "types"} \subseteq DOMAIN s) /\ ~({"items", "itemsArray"} \subseteq DOMAIN s)
+\* 2020-only keywords inside a draft-07 document (and vice versa) are outside the quantifier
+Only2020 == {"prefixItems", "unevaluatedItems", "unevaluatedProperties", "dependentRequired", "dependentSchemas", "minContains",
+             "maxContains", "defs", "anchor", "dynamicAnchor"}
+OnlyD7 == {"itemsArray", "additionalItems", "depSchemas", "depStrings", "definitions"}
+RTOk(s) == /\ ~(DOMAIN s \cap Only2020 # {} /\ DOMAIN s \cap OnlyD7 # {})
+           /\ ~({"type", "types"} \subseteq DOMAIN s) /\ ~({"items", "itemsArray"} \subseteq DOMAIN s)
            /\ ~({"defs", "definitions"} \subseteq DOMAIN s)
            /\ ~({"depSchemas", "depStrings"} \subseteq DOMAIN s /\ DOMAIN s.depSchemas \cap DOMAIN s.depStrings # {})
 RTPairs == {x[1] @@ x[2] : x \in {y \in RTAtoms \X RTAtoms : DOMAIN y[1] \cap DOMAIN y[2] = {} /\ RTOk(y[1] @@ y[2])}}
@@ -66,7 +71,8 @@ Single(s) == [docs |-> <<[uri |-> EmptyURI, s |-> s]>>]
 \* draft-07-only keywords make sense only under the draft-07 $schema; the verdict
 \* vector is taken under the draft the document declares
 DrFor(s) == IF \E k \in {"itemsArray", "additionalItems", "depSchemas", "depStrings", "definitions"} : k \in DOMAIN s THEN "d7" ELSE "2020"
-Verd(s) == [i \in DOMAIN RTInsts |-> IF Ev(Single(s), DrFor(s), Addr(1, <<>>), RTInsts[i], <<>>).ok THEN "T" ELSE "F"]
+VerdDr(s, dr) == [i \in DOMAIN RTInsts |-> IF Ev(Single(s), dr, Addr(1, <<>>), RTInsts[i], <<>>).ok THEN "T" ELSE "F"]
+Verd(s) == VerdDr(s, DrFor(s))
 KeysOf(s) == IF "bool" \in DOMAIN s THEN {} ELSE Emitted(s)
 
 \* ------------------------------------------------------------ DK: decorations (C18)
@@ -113,7 +119,8 @@ OrderRefines ==
 \* C05 on the model: Unm(Mar(s)) keeps the meaning, and marshaling is idempotent
 RoundTripKeepsMeaning ==
   (Family = "RT" /\ phase = "done") =>
-     /\ Verd(RoundTrip(cs.s)) = Verd(cs.s)
+     \* (the draft is a property of the document - its $schema - not of which keywords survive)
+     /\ VerdDr(RoundTrip(cs.s), DrFor(cs.s)) = Verd(cs.s)
      /\ Mar(RoundTrip(cs.s)) = Mar(cs.s)
 \* C18 on the model: a decoration never changes a verdict, and a key is read as
 \* a keyword only if it is exactly the keyword
